@@ -1,9 +1,599 @@
 package dct
 
+// Correspondence between the extracted Coq model (area JpegDCT) and the Go code.
+// Compared observables are integers and bytes only.
+
 import (
+	"fmt"
+	"strconv"
+	"strings"
+
+	"github.com/cocosip/go-dicom-codecs/jpeg/baseline"
+	"github.com/cocosip/go-dicom-codecs/jpeg/extended"
+	"github.com/cocosip/go-dicom-codecs/jpeg/standard"
 	. "verif/harness/vhlib"
 )
 
+// ---------- a small sequential Huffman entropy decoder (harness side) ----------
+// Reads the quantised coefficients back out of a stream: the tie for "DCT + quantiser"
+// that needs no hook in /repo. Natural order, blocks in scan order per component.
+
+type entTable struct {
+	codes map[uint32]byte // (len<<16 | code) -> symbol
+}
+
+func buildEnt(bits []byte, vals []byte) *entTable {
+	t := &entTable{codes: map[uint32]byte{}}
+	code, k := uint32(0), 0
+	for l := 1; l <= 16; l++ {
+		for i := 0; i < int(bits[l-1]); i++ {
+			if k < len(vals) {
+				t.codes[uint32(l)<<16|code] = vals[k]
+			}
+			code++
+			k++
+		}
+		code <<= 1
+	}
+	return t
+}
+
+type entReader struct {
+	d    []byte
+	p    int
+	acc  uint32
+	nacc int
+	err  string
+}
+
+func (r *entReader) bit() uint32 {
+	if r.nacc == 0 {
+		if r.p >= len(r.d) {
+			r.err = "scan data exhausted"
+			return 0
+		}
+		b := r.d[r.p]
+		r.p++
+		if b == 0xFF {
+			if r.p < len(r.d) && r.d[r.p] == 0 {
+				r.p++
+			} else {
+				r.err = "marker inside scan"
+				return 0
+			}
+		}
+		r.acc, r.nacc = uint32(b), 8
+	}
+	r.nacc--
+	return (r.acc >> uint(r.nacc)) & 1
+}
+func (r *entReader) sym(t *entTable) int {
+	code := uint32(0)
+	for l := 1; l <= 16; l++ {
+		code = code<<1 | r.bit()
+		if r.err != "" {
+			return 0
+		}
+		if s, ok := t.codes[uint32(l)<<16|code]; ok {
+			return int(s)
+		}
+	}
+	r.err = "no code"
+	return 0
+}
+func (r *entReader) extend(n int) int {
+	if n == 0 {
+		return 0
+	}
+	v := 0
+	for i := 0; i < n; i++ {
+		v = v<<1 | int(r.bit())
+	}
+	if v < 1<<uint(n-1) {
+		v += -(1 << uint(n)) + 1
+	}
+	return v
+}
+
+// entropyDecode returns, per component, the coefficient blocks in scan order (1x1 sampling
+// only, no restart intervals: what the encoders of /repo emit).
+func entropyDecode(s []byte) (coefs [][][64]int, h *hdr, err string) {
+	h = walk(s)
+	if h.Err != "" {
+		return nil, h, h.Err
+	}
+	var dc, ac [4]*entTable
+	var selDC, selAC []int
+	p := 2
+	for {
+		for s[p] == 0xFF && s[p+1] == 0xFF {
+			p++
+		}
+		m := s[p+1]
+		l := int(s[p+2])<<8 | int(s[p+3])
+		d := s[p+4 : p+2+l]
+		p += 2 + l
+		if m == 0xC4 {
+			o := 0
+			for o+17 <= len(d) {
+				tc, th := d[o]>>4, d[o]&15
+				n := 0
+				for i := 0; i < 16; i++ {
+					n += int(d[o+1+i])
+				}
+				if th > 3 || o+17+n > len(d) {
+					return nil, h, "bad DHT"
+				}
+				t := buildEnt(d[o+1:o+17], d[o+17:o+17+n])
+				if tc == 0 {
+					dc[th] = t
+				} else {
+					ac[th] = t
+				}
+				o += 17 + n
+			}
+		}
+		if m == 0xDA {
+			ns := int(d[0])
+			for i := 0; i < ns; i++ {
+				selDC = append(selDC, int(d[2+2*i]>>4))
+				selAC = append(selAC, int(d[2+2*i]&15))
+			}
+			break
+		}
+	}
+	for _, c := range h.Comps {
+		if c.H != 1 || c.V != 1 {
+			return nil, h, "sampling not 1x1"
+		}
+	}
+	nb := ((h.W + 7) / 8) * ((h.H + 7) / 8)
+	nc := len(h.Comps)
+	coefs = make([][][64]int, nc)
+	r := &entReader{d: s, p: p}
+	pred := make([]int, nc)
+	for b := 0; b < nb; b++ {
+		for ci := 0; ci < nc; ci++ {
+			if dc[selDC[ci]] == nil || ac[selAC[ci]] == nil {
+				return nil, h, "missing table"
+			}
+			var k [64]int
+			pred[ci] += r.extend(r.sym(dc[selDC[ci]]))
+			k[0] = pred[ci]
+			for z := 1; z < 64; {
+				rs := r.sym(ac[selAC[ci]])
+				if r.err != "" {
+					return nil, h, r.err
+				}
+				run, sz := rs>>4, rs&15
+				if sz == 0 {
+					if run == 15 {
+						z += 16
+						continue
+					}
+					break
+				}
+				z += run
+				if z > 63 {
+					return nil, h, "run past block"
+				}
+				k[zz[z]] = r.extend(sz)
+				z++
+			}
+			if r.err != "" {
+				return nil, h, r.err
+			}
+			coefs[ci] = append(coefs[ci], k)
+		}
+	}
+	return coefs, h, ""
+}
+
+// rawDQT returns the DQT segments (marker..end) of a stream in order.
+func rawDQT(s []byte) [][]byte {
+	var out [][]byte
+	p := 2
+	for p+4 <= len(s) && s[p] == 0xFF {
+		m := s[p+1]
+		l := int(s[p+2])<<8 | int(s[p+3])
+		if m == 0xDB {
+			out = append(out, s[p:p+2+l])
+		}
+		if m == 0xDA {
+			break
+		}
+		p += 2 + l
+	}
+	return out
+}
+
+func blocksStr(bs [][64]int) string {
+	parts := make([]string, len(bs))
+	for i := range bs {
+		parts[i] = Ints(bs[i][:])
+	}
+	return strings.Join(parts, ";")
+}
+
+// ---------- the correspondence run ----------
+
 func runDctCorr(c *Ctx, prop string) {
-	_ = prop
+	if !c.HasModel() {
+		c.R.Note("dct: no model executable, correspondence skipped")
+		return
+	}
+	rng := c.Rng.Fork()
+	corrTables(c)
+	corrKernels(c, rng.Fork())
+	corrCoefs(c, rng.Fork())
+	corrColour(c, rng.Fork())
+	corrPipeline(c, rng.Fork())
+	corrGeometry(c, rng.Fork())
+}
+
+// (1) ScaleQuantTable at every quality, against the exported function and against the DQT
+// bytes the encoders actually write; zig-zag tables.
+func corrTables(c *Ctx) {
+	got := c.M.Call("dct_zigzag")
+	want := Ints(standard.ZigZag[:]) + ";" + Ints(standard.Unzig[:])
+	c.CorrEq("dct_zigzag", "dct:zigzag", got, want, nil)
+	px1, px3 := []byte{77}, []byte{10, 200, 90}
+	px12 := []byte{0x34, 0x02}
+	ParallelFor(100, c.Work, func(i int) {
+		q := i + 1
+		for bi, base := range []string{"luma", "chroma"} {
+			tab := standard.DefaultLuminanceQuantTable
+			if bi == 1 {
+				tab = standard.DefaultChrominanceQuantTable
+			}
+			st := standard.ScaleQuantTable(tab, q)
+			v := make([]int, 64)
+			for j := range v {
+				v[j] = int(st[j])
+			}
+			c.CorrEq("dct_scaleq", "dct:scaleq:"+base, c.M.Call("dct_scaleq", base, strconv.Itoa(q)), Ints(v), map[string]interface{}{"quality": q, "base": base})
+		}
+		if s, err := baseline.Encode(px1, 1, 1, 1, q); err == nil {
+			if d := rawDQT(s); len(d) == 1 {
+				c.CorrEq("dct_dqt", "dct:dqt:baseline:grey", c.M.Call("dct_dqt", "0", "luma", strconv.Itoa(q)), Hex(d[0]), map[string]interface{}{"quality": q})
+			} else {
+				c.R.Fail("corr", "dct_dqt", "dct:dqt:baseline:grey", fmt.Sprintf("expected 1 DQT segment, found %d", len(d)), q)
+			}
+		}
+		if s, err := baseline.Encode(px3, 1, 1, 3, q); err == nil {
+			if d := rawDQT(s); len(d) == 2 {
+				c.CorrEq("dct_dqt", "dct:dqt:baseline:rgb", c.M.Call("dct_dqt", "0", "luma", strconv.Itoa(q))+c.M.Call("dct_dqt", "1", "chroma", strconv.Itoa(q)), Hex(d[0])+Hex(d[1]), map[string]interface{}{"quality": q})
+			} else {
+				c.R.Fail("corr", "dct_dqt", "dct:dqt:baseline:rgb", fmt.Sprintf("expected 2 DQT segments, found %d", len(d)), q)
+			}
+		}
+		if s, err := extended.Encode(px12, 1, 1, 1, 12, q); err == nil {
+			if d := rawDQT(s); len(d) == 1 {
+				c.CorrEq("dct_dqt", "dct:dqt:ext12", c.M.Call("dct_dqt", "0", "luma", strconv.Itoa(q)), Hex(d[0]), map[string]interface{}{"quality": q})
+				// and the model's parser reads the same table back
+				c.CorrEq("dct_parse_dqt", "dct:parse_dqt", c.M.Call("dct_parse_dqt", Hex(d[0][4:])), "ok:0:"+c.M.Call("dct_scaleq", "luma", strconv.Itoa(q)), map[string]interface{}{"quality": q})
+			}
+		}
+	})
+}
+
+func randBlock8(rng *Rand, kind int) []byte {
+	b := make([]byte, 64)
+	for i := range b {
+		x, y := i%8, i/8
+		switch kind % 8 {
+		case 0:
+			b[i] = byte(rng.Intn(256))
+		case 1:
+			b[i] = byte(255 * ((x + y) & 1))
+		case 2:
+			b[i] = byte(255 * ((x + y + 1) & 1))
+		case 3:
+			b[i] = byte(255 * rng.Intn(2))
+		case 4:
+			b[i] = 255
+		case 5:
+			b[i] = 0
+		case 6:
+			b[i] = byte(255 * (x & 1))
+		default:
+			b[i] = byte(mini(255, x*36+rng.Intn(4)))
+		}
+	}
+	return b
+}
+
+// (2) DCTISlow / IDCTISlow (exported) on random blocks incl. extremes, Nyquist
+// checkerboards and int32-wrapping coefficient magnitudes.
+func corrKernels(c *Ctx, rng *Rand) {
+	n := c.N(400, 6000)
+	type kc struct {
+		blk  []byte
+		coef []int32
+		qt   [64]int32
+	}
+	cases := make([]kc, n)
+	for i := range cases {
+		k := kc{blk: randBlock8(rng, i), coef: make([]int32, 64)}
+		mag := []int{4, 64, 1024, 2047, 32767, 1 << 20, 1 << 30}[rng.Intn(7)]
+		dens := rng.Range(1, 64)
+		for j := 0; j < 64; j++ {
+			if rng.Intn(64) < dens {
+				k.coef[j] = int32(rng.Range(-mag, mag))
+			}
+			switch rng.Intn(4) {
+			case 0:
+				k.qt[j] = 1
+			case 1:
+				k.qt[j] = int32(rng.Range(1, 255))
+			case 2:
+				k.qt[j] = 255
+			default:
+				k.qt[j] = int32(rng.Range(1, 65535))
+			}
+		}
+		cases[i] = k
+	}
+	ParallelFor(n, c.Work, func(i int) {
+		k := cases[i]
+		coef := make([]int32, 64)
+		standard.DCTISlow(k.blk, 8, coef)
+		in := make([]int, 64)
+		for j := range in {
+			in[j] = int(k.blk[j])
+		}
+		c.CorrEq("dct_fdct", "dct:fdct", c.M.Call("dct_fdct", Ints(in)), Ints32(coef), map[string]interface{}{"block": in})
+		out := make([]byte, 64)
+		standard.IDCTISlow(k.coef, k.qt, out, 8)
+		o := make([]int, 64)
+		for j := range o {
+			o[j] = int(out[j])
+		}
+		c.CorrEq("dct_idct", "dct:idct", c.M.Call("dct_idct", Ints32(k.coef), Ints32(k.qt[:])), Ints(o), map[string]interface{}{"coef": k.coef, "qt": k.qt})
+		// forward then inverse with the real quantiser tables of a random quality
+		c.R.Case("kern:"+Ints(in), true, "corr.kernel")
+	})
+}
+
+// (3) DCT + quantiser of both encoders: the coefficients read back from the emitted
+// stream by the harness's entropy decoder = the model's quantised blocks (ties included).
+func corrCoefs(c *Ctx, rng *Rand) {
+	n := c.N(150, 2500)
+	type cc struct {
+		w, h, q int
+		twelve  bool
+		px      []byte
+		class   string
+	}
+	cases := make([]cc, n)
+	for i := range cases {
+		k := cc{w: rng.Range(1, 20), h: rng.Range(1, 20), q: rng.Range(1, 100), twelve: i%3 == 2}
+		if i%10 == 0 {
+			k.q = []int{100, 1, 50, 99, 49}[rng.Intn(5)]
+		}
+		if k.twelve {
+			k.class = contents12[rng.Intn(len(contents12))]
+			k.px = gen12(rng, k.class, k.w, k.h)
+		} else {
+			k.class = contents8[rng.Intn(len(contents8))]
+			k.px = gen8(rng, k.class, k.w, k.h, 1)
+		}
+		cases[i] = k
+	}
+	ParallelFor(n, c.Work, func(i int) {
+		k := cases[i]
+		var s []byte
+		var err error
+		if k.twelve {
+			s, err = extended.Encode(k.px, k.w, k.h, 1, 12, k.q)
+		} else {
+			s, err = baseline.Encode(k.px, k.w, k.h, 1, k.q)
+		}
+		in := map[string]interface{}{"w": k.w, "h": k.h, "quality": k.q, "twelve": k.twelve, "pixels": Hex(k.px)}
+		if err != nil {
+			c.R.Fail("corr", "dct_coefs", "dct:coefs:encode", err.Error(), in)
+			return
+		}
+		coefs, _, e := entropyDecode(s)
+		if e != "" {
+			c.R.Fail("corr", "dct_coefs", "dct:coefs:entropy", "harness entropy decoder: "+e, in)
+			return
+		}
+		c.R.Case(fmt.Sprintf("coefs:%v:%d:%d:%d:%s", k.twelve, k.w, k.h, k.q, Hex(k.px)), true, "corr.coefs")
+		if k.twelve {
+			smp := make([]int, k.w*k.h)
+			for j := range smp {
+				smp[j] = int(k.px[2*j]) | int(k.px[2*j+1])<<8
+			}
+			c.CorrEq("dct_coefs12", "dct:coefs12", c.M.Call("dct_coefs12", strconv.Itoa(k.w), strconv.Itoa(k.h), strconv.Itoa(k.q), Ints(smp)), blocksStr(coefs[0]), in)
+		} else {
+			c.CorrEq("dct_coefs8", "dct:coefs8", c.M.Call("dct_coefs8", strconv.Itoa(k.w), strconv.Itoa(k.h), strconv.Itoa(k.q), Hex(k.px)), blocksStr(coefs[0]), in)
+		}
+	})
+}
+
+// (4) colour conversions (unexported in /repo), observed through the exported codecs:
+// ycbcrToRGB via streams of DC-only blocks (one (Y,Cb,Cr) triple per 8x8 block, quality 100
+// so every table entry is 1 and IDCTISlow reproduces the triple exactly) decoded by
+// baseline.Decode; rgbToYCbCr via baseline.Encode of block-constant RGB images at quality
+// 100, reading the DC coefficients back (DC = 8*(v-128), AC = 0).
+func corrColour(c *Ctx, rng *Rand) {
+	rounds := c.N(8, 120)
+	const bw, bh = 16, 16 // 256 triples per image
+	ext := []int{0, 1, 127, 128, 129, 254, 255, 16, 235, 240}
+	seeds := make([]uint64, rounds)
+	for i := range seeds {
+		seeds[i] = rng.U64()
+	}
+	ParallelFor(rounds, c.Work, func(rd int) {
+		r := NewRand(seeds[rd])
+		trip := make([]int, 0, bw*bh*3)
+		for i := 0; i < bw*bh; i++ {
+			for ch := 0; ch < 3; ch++ {
+				if r.Intn(3) == 0 {
+					trip = append(trip, ext[r.Intn(len(ext))])
+				} else {
+					trip = append(trip, r.Intn(256))
+				}
+			}
+		}
+		// --- ycbcrToRGB ---
+		o := defaultOpts(3, 100)
+		comps, mc, mr := refLayout(3, bw*8, bh*8, o)
+		for i := 0; i < bw*bh; i++ {
+			for ch := 0; ch < 3; ch++ {
+				comps[ch].coefs[i][0] = 8 * (trip[3*i+ch] - 128)
+			}
+		}
+		s := refEmit(comps, mc, mr, bw*8, bh*8, o)
+		px, w, h, nc, err := baseline.Decode(s)
+		if err != nil || w != bw*8 || h != bh*8 || nc != 3 {
+			c.R.Fail("corr", "dct_ycc2rgb", "dct:ycc2rgb:decode", fmt.Sprintf("baseline.Decode of DC-only stream: %v", err), nil)
+			return
+		}
+		got := make([]int, 0, bw*bh*3)
+		for by := 0; by < bh; by++ {
+			for bx := 0; bx < bw; bx++ {
+				// a pixel inside the block, and make sure the block is constant
+				p := ((by*8+3)*w + bx*8 + 5) * 3
+				got = append(got, int(px[p]), int(px[p+1]), int(px[p+2]))
+			}
+		}
+		c.CorrEq("dct_ycc2rgb", "dct:ycc2rgb", c.M.Call("dct_ycc2rgb", Ints(trip)), Ints(got), map[string]interface{}{"ycc": trip})
+		c.R.Case(fmt.Sprintf("ycc:%d:%d", rd, trip[0]), true, "corr.colour")
+
+		// --- rgbToYCbCr ---
+		rgb := make([]byte, bw*8*bh*8*3)
+		for y := 0; y < bh*8; y++ {
+			for x := 0; x < bw*8; x++ {
+				i := (y/8)*bw + x/8
+				for ch := 0; ch < 3; ch++ {
+					rgb[(y*bw*8+x)*3+ch] = byte(trip[3*i+ch])
+				}
+			}
+		}
+		es, err := baseline.Encode(rgb, bw*8, bh*8, 3, 100)
+		if err != nil {
+			c.R.Fail("corr", "dct_rgb2ycc", "dct:rgb2ycc:encode", err.Error(), nil)
+			return
+		}
+		coefs, _, e := entropyDecode(es)
+		if e != "" || len(coefs) != 3 {
+			c.R.Fail("corr", "dct_rgb2ycc", "dct:rgb2ycc:entropy", "harness entropy decoder: "+e, nil)
+			return
+		}
+		ycc := make([]int, 0, bw*bh*3)
+		for i := 0; i < bw*bh; i++ {
+			for ch := 0; ch < 3; ch++ {
+				k := coefs[ch][i]
+				if k[0]%8 != 0 {
+					c.R.Fail("corr", "dct_rgb2ycc", "dct:rgb2ycc:dc", fmt.Sprintf("DC %d of a constant block is not a multiple of 8", k[0]), nil)
+					return
+				}
+				ycc = append(ycc, k[0]/8+128)
+			}
+		}
+		c.CorrEq("dct_rgb2ycc", "dct:rgb2ycc", c.M.Call("dct_rgb2ycc", Ints(trip)), Ints(ycc), map[string]interface{}{"rgb": trip})
+	})
+}
+
+// (5) whole lossy path on small images: model pipeline = baseline.Decode(baseline.Encode(x)).
+func corrPipeline(c *Ctx, rng *Rand) {
+	n := c.N(120, 2000)
+	type pc struct {
+		w, h, comps, q int
+		px             []byte
+	}
+	cases := make([]pc, n)
+	for i := range cases {
+		k := pc{w: rng.Range(1, 18), h: rng.Range(1, 18), comps: 1 + 2*(i&1), q: rng.Range(1, 100)}
+		if i%7 == 0 {
+			k.q = 100
+		}
+		k.px = gen8(rng, contents8[rng.Intn(len(contents8))], k.w, k.h, k.comps)
+		cases[i] = k
+	}
+	ParallelFor(n, c.Work, func(i int) {
+		k := cases[i]
+		in := map[string]interface{}{"w": k.w, "h": k.h, "comps": k.comps, "quality": k.q, "pixels": Hex(k.px)}
+		s, err := baseline.Encode(k.px, k.w, k.h, k.comps, k.q)
+		if err != nil {
+			c.R.Fail("corr", "dct_pipe8", "dct:pipe8:encode", err.Error(), in)
+			return
+		}
+		d, _, _, _, err := baseline.Decode(s)
+		if err != nil {
+			c.R.Fail("corr", "dct_pipe8", "dct:pipe8:decode", err.Error(), in)
+			return
+		}
+		c.R.Case("pipe:"+Hex(k.px)+fmt.Sprint(k.w, k.h, k.comps, k.q), true, "corr.pipeline")
+		c.CorrEq("dct_pipe8", fmt.Sprintf("dct:pipe8:comps=%d", k.comps), c.M.Call("dct_pipe8", strconv.Itoa(k.w), strconv.Itoa(k.h), strconv.Itoa(k.comps), strconv.Itoa(k.q), Hex(k.px)), Hex(d), in)
+	})
+}
+
+// (6) decoder geometry incl. subsampling: streams whose every scan block is a distinct
+// constant; the decoded picture must show, at every pixel, the block the model's index
+// functions (parseSOF sizes, blockOffset, skip rule, convertToPixels scaling) say.
+func corrGeometry(c *Ctx, rng *Rand) {
+	n := c.N(60, 800)
+	samp := []string{"444", "422", "420", "440"}
+	hv := map[string]string{"444": "1,1,1,1,1,1", "422": "2,1,1,1,1,1", "420": "2,2,1,1,1,1", "440": "1,2,1,1,1,1"}
+	type gc struct {
+		w, h int
+		s    string
+	}
+	cases := make([]gc, n)
+	for i := range cases {
+		cases[i] = gc{rng.Range(1, 40), rng.Range(1, 40), samp[i%4]}
+	}
+	ParallelFor(n, c.Work, func(i int) {
+		k := cases[i]
+		o := defaultOpts(3, 100)
+		o.Sampling = k.s
+		comps, mc, mr := refLayout(3, k.w, k.h, o)
+		val := make([]map[string]int, 3)
+		for ci, cp := range comps {
+			val[ci] = map[string]int{}
+			nbx := cp.bw / 8
+			for b := range cp.coefs {
+				v := 1 + (b*37+ci*11)%255 // 1..255, 0 is reserved for "never written"
+				cp.coefs[b][0] = 8 * (v - 128)
+				val[ci][fmt.Sprintf("%d.%d", b%nbx, b/nbx)] = v
+			}
+		}
+		s := refEmit(comps, mc, mr, k.w, k.h, o)
+		in := map[string]interface{}{"w": k.w, "h": k.h, "sampling": k.s, "stream": clipBytes(s)}
+		var px []byte
+		var w, h, nc int
+		var err error
+		pan, msg := Safely(func() { px, w, h, nc, err = baseline.Decode(s) })
+		if pan || err != nil {
+			c.R.Fail("corr", "dct_geometry", "dct:geometry:decode:"+k.s, fmt.Sprintf("baseline.Decode: %v %s", err, msg), in)
+			return
+		}
+		c.R.Case(fmt.Sprintf("geom:%d:%d:%s", k.w, k.h, k.s), true, "corr.geometry."+k.s)
+		if w != k.w || h != k.h || nc != 3 || len(px) != k.w*k.h*3 {
+			c.R.Fail("corr", "dct_geometry", "dct:geometry:outlen:"+k.s, fmt.Sprintf("decoded %dx%dx%d, %d samples", w, h, nc, len(px)), in)
+			return
+		}
+		ycc := make([]int, k.w*k.h*3)
+		for ci := 0; ci < 3; ci++ {
+			own := strings.Split(c.M.Call("dct_owners", strconv.Itoa(k.w), strconv.Itoa(k.h), hv[k.s], strconv.Itoa(ci)), ",")
+			if len(own) != k.w*k.h {
+				c.R.Fail("corr", "dct_geometry", "dct:geometry:model", "model reply malformed", in)
+				return
+			}
+			for p, o := range own {
+				if o != "-" {
+					ycc[3*p+ci] = val[ci][o]
+				}
+			}
+		}
+		want := c.M.Call("dct_ycc2rgb", Ints(ycc))
+		got := make([]int, len(px))
+		for j := range px {
+			got[j] = int(px[j])
+		}
+		c.CorrEq("dct_geometry", "dct:geometry:"+k.s, want, Ints(got), in)
+	})
 }
